@@ -279,6 +279,7 @@ struct St {
 	int64_t qdepth = 0, qmax = 0;
 	// worker phase tracking (probes): 0 idle / waiting, 1 got the semaphore, 2 holds the lock
 	int wphase = 0;
+	int stop_guard = 0;
 	uintptr_t anchor = 0;
 };
 static St *Gp;
@@ -303,8 +304,14 @@ static void observe_access(uintptr_t a, int is_write)
 	if (a == A_lockptr && !is_write && is_worker_task(me) && G.wphase == 0) G.wphase = 1;
 	else if (a == A_should_exit) {
 		if (!is_write && is_worker_task(me)) G.wphase = 2;
-		else if (is_write && me == 0 && G.in_fini && G.wphase == 1) count(p_stop_window);
+		else if (is_write && me == 0 && G.in_fini) {
+			if (G.wphase == 1) count(p_stop_window);
+			// avoid rule "fini-with-backlog": the application is not preempted between storing the stop flag and posting the
+			// semaphore (qb_log_thread_stop), so the worker never tests "flag set and semaphore value 0" with records queued
+			if ((G.av & AV_F) && G.stop_guard == 0) { no_preempt(1); G.stop_guard = 1; }
+		}
 	}
+	if (G.stop_guard == 2 && me == 0) { no_preempt(-1); G.stop_guard = 0; }
 }
 static inline void acc(void *addr, uintptr_t pc, int is_write)
 {
@@ -332,6 +339,7 @@ static void on_call(uint32_t site)
 {
 	if (!Gp) return;
 	if (site == S_UNLOCK && is_worker_task(cur_task())) G.wphase = 0;
+	if (site == S_SEM_POST && G.stop_guard == 1 && cur_task() == 0) G.stop_guard = 2;   // released at the application's next access
 }
 
 // ------------------------------------------------------------------ oracle
@@ -652,8 +660,9 @@ static void note_control_start(int t, bool pauses)
 
 static void do_fini()
 {
-	if ((G.av & AV_F) && G.a.thr_live) {
-		// avoid rule: let the worker drain its queue first (a sleeping application lets every other task run until it blocks)
+	if ((G.av & AV_F) && G.a.thr_live && !A_should_exit) {
+		// avoid rule, fallback when the stop flag of log_thread.c could not be located (see observe_access for the precise
+		// rule): let the worker drain its queue first (a sleeping application lets every other task run until it blocks)
 		struct timespec ts = { 0, 1000 };
 		for (int k = 0; k < 50 && simk_nanosleep(&ts, NULL) != 0; k++) {}
 	}
@@ -667,6 +676,7 @@ static void do_fini()
 	qb_log_fini();
 	ev(221);
 	G.in_fini = false;
+	if (G.stop_guard) { no_preempt(-1); G.stop_guard = 0; }
 	check_cycle_end("when qb_log_fini returned");
 	if (failed()) return;
 	G.fini_returned = true;
@@ -836,6 +846,7 @@ static void app_op(const Op &op)
 	case K_CLOSE: {
 		Tgt &T = G.T[t];
 		bool busy_risk = T.enabled && G.a.slot_thr[T.pos] && G.a.lock_state() == 1;
+		if (busy_risk && pending_must(t)) count(p_close_busy);
 		if (busy_risk && (G.av & AV_E)) {
 			// avoid rule: disable first (that call waits for the worker), then close
 			demote(t, true);
@@ -844,7 +855,6 @@ static void app_op(const Op &op)
 			T.enabled = false; G.a.T[t].enabled = false;
 		}
 		note_control_start(t, false);
-		if (busy_risk && pending_must(t)) count(p_close_busy);
 		demote(t, true);
 		ev(209, t);
 		int pos = T.pos;
